@@ -1,10 +1,13 @@
+#ifndef SC_HAVOC_MORE_MAPS
+#define SC_HAVOC_MORE_MAPS() do { } while (0)
+#endif
 #define VP_CNT(x) do { x = nondet_size_t(); __CPROVER_assume(x < ((size_t) 1 << 40)); } while (0)
 #define SC_HAVOC_MAP(M) do { (M).id_cap = nondet_u32(); (M).id_count = nondet_u32(); (M).id_load = nondet_u32(); (M).id_min_load = nondet_u32(); \
 		(M).id_max_load = nondet_u32(); (M).id_registered = nondet_bool(); (M).id_dyn_val = nondet_u64(); /* id_entries: NULL (static initialiser); the contracts make it NULL or a fresh table */ } while (0)
 /* the RANGE fields (id_min_val, id_max_val) and id_static / id_random of the five static maps keep the values of their initialisers in the real files */
 #define VP_HAVOC_GHOSTS()                                                      \
 	do {                                                                       \
-		SC_HAVOC_MAP(sock_ids); SC_HAVOC_MAP(ctx_ids); SC_HAVOC_MAP(pipes); SC_HAVOC_MAP(dialers); SC_HAVOC_MAP(listeners); \
+		SC_HAVOC_MAP(sock_ids); SC_HAVOC_MAP(ctx_ids); SC_HAVOC_MORE_MAPS(); \
 		id_reg_num = nondet_int();                                             \
 		g_k = nondet_size_t(); g_j = nondet_size_t(); g_kk = nondet_u64(); g_kv = nondet_ptr(); g_ks = nondet_u32(); g_ents = nondet_ptr(); \
 		g_found = nondet_size_t(); g_slot = nondet_size_t(); g_u32 = nondet_u32(); g_u64 = nondet_u64(); g_reg = nondet_ptr(); \
@@ -26,23 +29,8 @@
 	} while (0)
 void h_ctx_find(void) { nni_ctx **cp; uint32_t id; VP_HAVOC_GHOSTS(); nni_ctx_find(cp, id); VP_CANARY(); }
 void h_sock_find(void) { nni_sock **sp; uint32_t id; VP_HAVOC_GHOSTS(); nni_sock_find(sp, id); VP_CANARY(); }
-void h_pipe_find(void) { nni_pipe **pp; uint32_t id; VP_HAVOC_GHOSTS(); nni_pipe_find(pp, id); VP_CANARY(); }
-void h_dialer_find(void) { nni_dialer **dp; uint32_t id; VP_HAVOC_GHOSTS(); nni_dialer_find(dp, id); VP_CANARY(); }
-void h_listener_find(void) { nni_listener **lp; uint32_t id; VP_HAVOC_GHOSTS(); nni_listener_find(lp, id); VP_CANARY(); }
 void h_sock_hold(void) { nni_sock *s; VP_HAVOC_GHOSTS(); nni_sock_hold(s); VP_CANARY(); }
 void h_sock_rele(void) { nni_sock *s; VP_HAVOC_GHOSTS(); nni_sock_rele(s); VP_CANARY(); }
 void h_ctx_rele(void) { nni_ctx *c; VP_HAVOC_GHOSTS(); nni_ctx_rele(c); VP_CANARY(); }
 void h_ctx_close(void) { nni_ctx *c; VP_HAVOC_GHOSTS(); nni_ctx_close(c); VP_CANARY(); }
 void h_ctx_open(void) { nni_ctx **cp; nni_sock *s; VP_HAVOC_GHOSTS(); nni_ctx_open(cp, s); VP_CANARY(); }
-void h_pipe_create(void) { nni_pipe **pp; nni_sock *s; nni_sp_tran *t; nni_dialer *d; nni_listener *l; VP_HAVOC_GHOSTS(); pipe_create(pp, s, t, d, l); VP_CANARY(); }
-void h_pipe_hold(void) { nni_pipe *p; VP_HAVOC_GHOSTS(); nni_pipe_hold(p); VP_CANARY(); }
-void h_pipe_rele(void) { nni_pipe *p; VP_HAVOC_GHOSTS(); nni_pipe_rele(p); VP_CANARY(); }
-void h_pipe_id(void) { nni_pipe *p; VP_HAVOC_GHOSTS(); nni_pipe_id(p); VP_CANARY(); }
-void h_pipe_is_closed(void) { nni_pipe *p; VP_HAVOC_GHOSTS(); nni_pipe_is_closed(p); VP_CANARY(); }
-void h_pipe_send(void) { nni_pipe *p; nni_aio *a; VP_HAVOC_GHOSTS(); nni_pipe_send(p, a); VP_CANARY(); }
-void h_pipe_recv(void) { nni_pipe *p; nni_aio *a; VP_HAVOC_GHOSTS(); nni_pipe_recv(p, a); VP_CANARY(); }
-void h_pipe_peer(void) { nni_pipe *p; VP_HAVOC_GHOSTS(); nni_pipe_peer(p); VP_CANARY(); }
-void h_dialer_hold(void) { nni_dialer *d; VP_HAVOC_GHOSTS(); nni_dialer_hold(d); VP_CANARY(); }
-void h_dialer_rele(void) { nni_dialer *d; VP_HAVOC_GHOSTS(); nni_dialer_rele(d); VP_CANARY(); }
-void h_listener_hold(void) { nni_listener *l; VP_HAVOC_GHOSTS(); nni_listener_hold(l); VP_CANARY(); }
-void h_listener_rele(void) { nni_listener *l; VP_HAVOC_GHOSTS(); nni_listener_rele(l); VP_CANARY(); }
